@@ -481,13 +481,9 @@ Proof.
     + destruct (i_ann _ _ _ I1 dst ob1 (proj1 Hd) G1) as [A1 _]. rewrite KO1 in A1.
       destruct (A1 AK _ B1 sy eq_refl) as [Fy Ky].
       destruct (kind_at_hget _ _ _ Ky) as [? [Gy _]]. apply hget_Some_range in Gy.
-      set (s2 := memo_set s1 sx sy).
-      assert (I2 : Inv s2) by (apply inv_memo_set; [assumption | lia | left; lia | intro; lia]).
-      assert (E2 : Ext s1 s2) by apply ext_memo_set.
       split; [discriminate|]. intros s' EQ. inversion EQ; subst s'. clear EQ. split.
-      * apply maybe_note_inv. apply maybe_note_inv. apply inv_note. exact I2.
-      * eapply ext_trans; [exact E2|]. eapply ext_trans; [apply ext_note|].
-        eapply ext_trans; [apply maybe_note_ext | apply maybe_note_ext].
+      * apply inv_memo_set; [assumption | lia | left; lia | intro; lia].
+      * apply ext_memo_set.
     + apply stspec_ok. assumption.
 Qed.
 
@@ -677,22 +673,12 @@ Proof.
     destruct (bget (obody ob) NM_ILIST) as [[?|lx]|] eqn:BL; try (split; [discriminate | intros; discriminate]).
     assert (Vl : 0 <= lx < n0).
     { destruct (Hclosed _ _ _ _ G (bget_In _ _ _ BL)) as [_ X]. exact X. }
-    set (s3 := match bget (body_of s2 (hlen (sh s))) NM_ILIST with Some (R l) => note s2 lx l | _ => s2 end).
-    assert (I3 : Inv s3) by (unfold s3; destruct (bget (body_of s2 (hlen (sh s))) NM_ILIST) as [[?|?]|]; auto using inv_note).
-    assert (E3 : Ext s2 s3) by (unfold s3; destruct (bget (body_of s2 (hlen (sh s))) NM_ILIST) as [[?|?]|]; auto using ext_note, ext_refl).
-    set (s4 := match bget (obody ob) NM_ISET, bget (body_of s3 (hlen (sh s))) NM_ISET with
-               | Some (R zx), Some (R z) => note s3 zx z | _, _ => s3 end).
-    assert (I4 : Inv s4) by (apply maybe_note_inv; exact I3).
-    assert (E4 : Ext s3 s4) by apply maybe_note_ext.
-    assert (E14 : Ext s s4) by (eapply ext_trans; [exact E2|]; eapply ext_trans; eassumption).
-    assert (Ea4 : Ext sa s4).
-    { eapply ext_trans; [|eapply ext_trans; [exact E3 | exact E4]].
-      eapply ext_trans; [apply ext_memo_set | apply ext_note]. }
-    apply finish_spec with (s1 := s4); [|assumption|destruct Ea4; lia].
-    eapply annset_items_spec; try eassumption.
-    + eapply U_lt_ext; [|exact U2]. eapply ext_trans; eassumption.
-    + eapply kind_ext; [exact Ea4 | exact Ka].
-    + rewrite (body_of_old s4 lx I4) by lia. destruct (hget h0 lx) as [l|] eqn:GL; [|constructor].
+    assert (Ea2 : Ext sa s2) by (eapply ext_trans; [apply ext_memo_set | apply ext_note]).
+    apply finish_spec with (s1 := s2); [|assumption|destruct Ea2; lia].
+    apply (annset_items_spec _ rec f s2 (hlen (sh s)) RS I2 U2).
+    + lia.
+    + eapply kind_ext; [exact Ea2 | exact Ka].
+    + rewrite (body_of_old s2 lx I2) by lia. destruct (hget h0 lx) as [l|] eqn:GL; [|constructor].
       eapply old_values_vsrc; eassumption.
   - (* KTaxon *)
     destruct (new_copy s x ob) as [s1 y] eqn:NC. cbn [fst snd] in *. subst y.
